@@ -1498,7 +1498,7 @@ class ArmV6:
             if self.registers.cpsr.e:
                 value = big_endian_reverse(value, size)
             for i in range(size):
-                self.mem_a_with_priv_set(address + i, 1, privileged, False, substring(value, 8 * i + 7, 8 * i))
+                self.mem_a_with_priv_set(add(address, i, 32), 1, privileged, False, substring(value, 8 * i + 7, 8 * i))
 
     def mem_u_with_priv_get(self, address, size, privileged):
         value = 0
@@ -1516,7 +1516,7 @@ class ArmV6:
         else:
             for i in range(size):
                 value = set_substring(value, 8 * i + 7, 8 * i,
-                                      self.mem_a_with_priv_get(address + i, 1, privileged, False))
+                                      self.mem_a_with_priv_get(add(address, i, 32), 1, privileged, False))
             if self.registers.cpsr.e:
                 value = big_endian_reverse(value, size)
         return value
